@@ -50,6 +50,7 @@ class Gen:
         w.update(self.opts.get("weights", {}))
         self.w = w
         self.nops = 0
+        self.focus = set()
         self.maxdim = self.opts.get("maxdim", 600 if tier == "quick" else 2000)
         if tier == "thorough":
             # wider worlds on the thorough tier
@@ -63,6 +64,14 @@ class Gen:
 
     def p(self, x):
         return self.rng.random() < x
+
+    def pick_sub(self, seq):
+        """choose a subsystem, with temporal locality: 40 % of the time one that the previous step touched
+        (or its envelope partner) - dependent multi-step histories on the same objects are where layout bugs hide"""
+        foc = [n for n in seq if n in self.focus]
+        if foc and self.rng.random() < 0.4:
+            return foc[int(self.rng.integers(0, len(foc)))]
+        return seq[int(self.rng.integers(0, len(seq)))]
 
     def angle(self):
         r = self.rng.random()
@@ -310,7 +319,7 @@ class Gen:
             lv = [n for n in lv if v["w"].kind(n) != "F"]
             if not lv:
                 return None
-        name = self.ch(lv)
+        name = self.pick_sub(lv)
         kind = v["w"].kind(name)
         if kind == "F":
             op = self.fock_op(v, name)
@@ -416,7 +425,7 @@ class Gen:
         if not lv:
             return None
         k = int(self.rng.integers(1, kmax + 1))
-        first = self.ch(lv)
+        first = self.pick_sub(lv)
         if k == 1:
             return [first]
         g = v["member_of"].get(first)
@@ -507,7 +516,7 @@ class Gen:
         if not lv:
             return None
         x = self.rng.random()
-        first = self.ch(lv)
+        first = self.pick_sub(lv)
         flags = {}
         if self.p(0.7):
             flags["destr"] = bool(self.p(0.5))
@@ -622,7 +631,7 @@ class Gen:
         lv = v["live"]
         if not lv:
             return None
-        name = self.ch(lv)
+        name = self.pick_sub(lv)
         vs = self.vias(v, [name])
         via = self.ch(vs)
         st = {"k": kind, "targets": [name]}
@@ -640,7 +649,7 @@ class Gen:
         if not lv:
             return None
         x = self.rng.random()
-        name = self.ch(lv)
+        name = self.pick_sub(lv)
         if x < 0.3:
             return {"k": "trace_out", "via": "state", "targets": [name]}
         if x < 0.55:
@@ -671,7 +680,7 @@ class Gen:
         focks = [n for n in v["live"] if w.kind(n) == "F"]
         if not focks:
             return None
-        f = self.ch(focks)
+        f = self.pick_sub(focks)
         d = v["dims"][f]
         n = int(self.rng.integers(1, d + 4))
         vs = self.vias(v, [f])
@@ -709,5 +718,12 @@ class Gen:
             except Malformed:
                 st = None
             if st:
+                self.focus = set(st.get("targets", []))
+                for t in list(self.focus):
+                    pt = v["w"].partner(t)
+                    if pt:
+                        self.focus.add(pt)
+                if st.get("via") == "env":
+                    self.focus |= {st["env"] + ".f", st["env"] + ".p"}
                 return st
         return None
